@@ -1,7 +1,223 @@
-import Atomman.Prelude
-open Atomman
+import Atomman.C14
+open Atomman Atomman.C14
+set_option linter.constructorNameAsVariable false
 
-/-- stub: replaced when the C14 model is built. -/
-def handleC14 (_toks : List String) : String := err "op"
+/-! line protocol of the C14 model driver (see harness/props/c14.py) -/
+
+def optInt? (s : String) : Option (Option Int) :=
+  if s = "-" then some none else s.toInt?.map some
+
+def iv? : List Int → Option IV
+  | [a, b, c] => some ⟨a, b, c⟩
+  | _ => none
+
+def m3i? : List Int → Option (M3 Int)
+  | [a, b, c, d, e, f, g, h, i] => some ⟨⟨a, b, c⟩, ⟨d, e, f⟩, ⟨g, h, i⟩⟩
+  | _ => none
+
+def showV (v : V3 Rat) : String := showRats v.toList
+def showIV (v : IV) : String := showInts v.toList
+def showM3I (m : M3 Int) : String := showInts (m.r0.toList ++ m.r1.toList ++ m.r2.toList)
+
+def parallelI (a b : IV) : Bool := V3.cross a b == (⟨0, 0, 0⟩ : IV)
+
+/-- margin flags of one run of the routine: `aNear aExact bNear bExact cTie`.
+    near = a competing candidate differs by less than the relative margin but is not equal;
+    exact = an exactly tied competitor other than the winner (and, for `a`, its negative). -/
+def marginFlags (vects : M3 Rat) (r : ABC Rat) (cb : IV) : List Bool :=
+  let cands := genVectors r.n
+  let m2 := fun v => V3.normSq (cart vects v)
+  let dn := fun v => V3.dot (cart vects v) r.pn
+  let inpl := cands.filter (fun v => decide (inPlane vects r.pn v))
+  let ma := m2 r.a
+  let aNear := inpl.any (fun v => m2 v ≠ ma && decide (m2 v < ma * (1 + 1/1000)) && decide (ma < m2 v * (1 + 1/1000)))
+  let aExact := inpl.any (fun v => m2 v == ma && v != r.a && v != -r.a)
+  let aC := cart vects r.a
+  let bc := cands.filter (fun v => decide (bFilter vects r.pn aC v))
+  let mb := m2 r.b
+  let bNear := bc.any (fun v => m2 v ≠ mb && decide (m2 v < mb * (1 + 1/1000)) && decide (mb < m2 v * (1 + 1/1000)))
+  let bExact := bc.any (fun v => m2 v == mb && v != r.b)
+  let dc := dn cb; let mc := m2 cb
+  let cTie := cands.any (fun v => decide (0 < dn v) && !parallelI v cb &&
+    decide (dc * dc * m2 v * (1 - 1/100000000) < dn v * dn v * mc))
+  -- initial bounds: a candidate within the margin of |[n,n,n]| makes `mag < a_mag` float-dependent
+  let bound := m2 ⟨r.n, r.n, r.n⟩
+  let nearBound := fun (m : Rat) => decide (bound < m * (1 + 1/1000)) && decide (m < bound * (1 + 1/1000))
+  [aNear || nearBound ma, aExact, bNear || nearBound mb, bExact, cTie]
+
+/-- the raw (unreduced) winner of the first search, needed for the tie flags. -/
+def rawC (vects : M3 Rat) (r : ABC Rat) : IV :=
+  match (search1 vects r.pn r.n).c with
+  | some cb => cb.v
+  | none => r.c
+
+def hexTol : Rat := 1 / 10000000
+
+def handleFsb (cut setting nS rhS kS : String) (rest : List String) : String :=
+  match Cut.ofString? cut, optInt? nS, kS.toNat? with
+  | some cut, some nOpt, some k =>
+    if k ≠ 3 ∧ k ≠ 4 then err "value" else
+    match parseInts? (rest.take k), parseRats? (rest.drop k) with
+    | some idx, some vs =>
+      match M3.ofList? vs with
+      | none => err "format"
+      | some vects =>
+        let hex := isHexagonal vects hexTol
+        -- 4-index input needs a hexagonal box; return_hexagonal default follows the input form
+        let hkl? : Except String (IV × Bool) :=
+          match idx with
+          | [h, kk, i, l] =>
+            if hex then
+              match plane4to3 h kk i l with
+              | some v => .ok (v, if rhS = "0" then false else true)
+              | none => .error "value"
+            else .error "value"
+          | [h, kk, l] =>
+            if rhS = "1" then (if hex then .ok (⟨h, kk, l⟩, true) else .error "value")
+            else .ok (⟨h, kk, l⟩, false)
+          | _ => .error "value"
+        match hkl?, c2p setting with
+        | .error e, _ => err e
+        | _, none => err "value"
+        | .ok (hkl, rh), some L =>
+          match basisABC vects hkl L nOpt with
+          | .error e => err e
+          | .ok r =>
+            let uv := orderRows cut r.a r.b r.c
+            let flags := marginFlags vects r (rawC vects r)
+            let body := if rh then
+                "4 " ++ showRats (vector3to4 uv.r0 ++ vector3to4 uv.r1 ++ vector3to4 uv.r2)
+              else "3 " ++ showM3I uv
+            "ok " ++ body ++ " ; " ++ showM3I uv ++ " ; " ++ showV r.pn ++ " ; " ++ toString r.n ++ " ; " ++
+              " ".intercalate (flags.map showBool)
+    | _, _ => err "format"
+  | _, _, _ => err "format"
+
+def handleValid (cut setting nS : String) (rest : List String) : String :=
+  match Cut.ofString? cut, optInt? nS, c2p setting with
+  | some cut, some nOpt, some L =>
+    match parseInts? (rest.take 3), parseRats? ((rest.drop 3).take 9), parseInts? (rest.drop 12), (rest.drop 21) with
+    | some [h, k, l], some vs, some us, _ =>
+      match M3.ofList? vs, m3i? (us.take 9), us.drop 9 with
+      | some vects, some uvws, [tn, td] =>
+        Rel.validBasis vects ⟨h, k, l⟩ L cut nOpt uvws (mkRat tn td.toNat)
+      | _, _, _ => err "format"
+    | _, _, _, _ => err "format"
+  | _, _, _ => err "format"
+
+def v3? : List Rat → Option (V3 Rat)
+  | [a, b, c] => some ⟨a, b, c⟩
+  | _ => none
+
+def chunk3 : List Rat → List (V3 Rat)
+  | a :: b :: c :: t => ⟨a, b, c⟩ :: chunk3 t
+  | _ => []
+
+def distInt (x : Rat) : Rat := let f : Rat := (x.floor : Int); min (x - f) (f + 1 - x)
+
+def handleC14 (toks : List String) : String :=
+  match toks with
+  | ["c2p", setting] =>
+    match c2p setting with
+    | some L => showM3I L ++ " ; " ++ toString (M3.det L)
+    | none => err "value"
+  | ["p2c", setting, u, v, w] =>
+    match c2p setting, parseInts? [u, v, w] with
+    | some L, some [u, v, w] => showV (p2cRat L ⟨u, v, w⟩)
+    | none, _ => err "value"
+    | _, _ => err "format"
+  | "fsb" :: cut :: setting :: nS :: rhS :: kS :: rest => handleFsb cut setting nS rhS kS rest
+  | "valid" :: cut :: setting :: nS :: rest => handleValid cut setting nS rest
+  | "init" :: rest =>
+    match parseInts? rest with
+    | some [h, k, l] =>
+      match initVectors ⟨h, k, l⟩ with
+      | some i => showIV i.a0 ++ " " ++ showIV i.b0 ++ " " ++ toString i.s
+      | none => err "value"
+    | _ => err "format"
+  | "gen" :: [n] =>
+    match n.toInt? with
+    | some n => toString (genVectors n).length ++ " " ++ " ".intercalate (((genVectors n).take 12).map showIV)
+    | none => err "format"
+  | "compat" :: cut :: rest =>
+    -- compat cut <9 ints uvws> <9 rats vects>  ->  ok flag | margin data (A·B, A·C, yz numerator, scale)
+    match Cut.ofString? cut, parseInts? (rest.take 9), parseRats? (rest.drop 9) with
+    | some cut, some us, some vs =>
+      match m3i? us, M3.ofList? vs with
+      | some uv, some vects =>
+        let A := cart vects uv.r0; let B := cart vects uv.r1; let C := cart vects uv.r2
+        showBool (cutCompatible cut A B C) ++ " " ++
+          showRats [V3.dot A B, V3.dot A C, V3.dot B C * V3.dot A A - V3.dot A B * V3.dot A C,
+                    V3.dot A A, V3.dot B B, V3.dot C C]
+      | _, _ => err "format"
+    | _, _, _ => err "format"
+  | "layers" :: numdec :: rest =>
+    match numdec.toNat?, parseRats? rest with
+    | some d, some xs => showRats (layerCoords d xs)
+    | _, _ => err "format"
+  | "shifts" :: numdec :: tol :: w :: rest =>
+    -- shifts numdec tol W <cut coordinates of the rcell atoms>
+    match numdec.toNat?, parseRat? tol, parseRat? w, parseRats? rest with
+    | some d, some tol, some w, some xs =>
+      if xs.isEmpty then err "value" else
+      let coords := layerCoords d xs
+      showRats (shifts coords w tol) ++ " ; " ++ showRats coords
+    | _, _, _, _ => err "format"
+  | ["mult", m, q, even] =>
+    match m.toInt?, optInt? q, parseBool? even with
+    | some m, some q, some e => toString (cutMult m q e)
+    | _, _, _ => err "format"
+  | ["pbc", cut] =>
+    match Cut.ofString? cut with
+    | some c => " ".intercalate ((surfacePbc c).map showBool)
+    | none => err "format"
+  | "vac" :: cut :: rest =>
+    -- vac cut vac <9 vects> <3 origin>
+    match Cut.ofString? cut, parseRats? rest with
+    | some c, some (vac :: xs) =>
+      match M3.ofList? (xs.take 9), v3? (xs.drop 9) with
+      | some vects, some o =>
+        if vac < 0 then err "value" else
+        let b := vacuumBox c ⟨vects, o⟩ vac
+        showRats (b.vects.toList ++ b.origin.toList)
+      | _, _ => err "format"
+    | _, _ => err "format"
+  | "fault" :: cut :: p0 :: p1 :: p2 :: rest =>
+    -- fault cut pbc0 pbc1 pbc2 fp <3 shift> <9 vects> <3 origin> <3N positions>
+    match Cut.ofString? cut, parseBool? p0, parseBool? p1, parseBool? p2, parseRats? rest with
+    | some c, some p0, some p1, some p2, some (fp :: xs) =>
+      match v3? (xs.take 3), M3.ofList? ((xs.drop 3).take 9), v3? ((xs.drop 12).take 3) with
+      | some sh, some vects, some o =>
+        let box : Box Rat := ⟨vects, o⟩
+        if M3.det vects = 0 then err "value" else
+        let ps := chunk3 (xs.drop 15)
+        let pbc : V3 Bool := ⟨p0, p1, p2⟩
+        let out := fault box pbc (fun x => x.floor) c fp sh ps
+        -- margins: distance of the shifted scaled coordinates to an integer (periodic directions only),
+        -- distance of the cut coordinate to the fault plane
+        let moved := ps.map (fun p => if isAbove c fp p then p + sh else p)
+        let mw := moved.foldl (fun m p =>
+          let s := box.cartToRel p
+          let m := if p0 then min m (distInt s.x) else m
+          let m := if p1 then min m (distInt s.y) else m
+          if p2 then min m (distInt s.z) else m) (1 : Rat)
+        let mf := ps.foldl (fun m p => min m (ratAbs (p.get (cutIndex c) - fp))) (1000000 : Rat)
+        let above := ps.map (fun p => showBool (isAbove c fp p))
+        showRats (out.flatMap V3.toList) ++ " ; " ++ " ".intercalate above ++ " ; " ++ showRats [mw, mf]
+      | _, _, _ => err "format"
+    | _, _, _, _, _ => err "format"
+  | "fshift" :: cut :: rest =>
+    -- fshift cut a1 a2 oop <3 a1cart> <3 a2cart>
+    match Cut.ofString? cut, parseRats? rest with
+    | some c, some [a1, a2, oop, x1, y1, z1, x2, y2, z2] =>
+      showV (faultShift a1 a2 oop ⟨x1, y1, z1⟩ ⟨x2, y2, z2⟩ c)
+    | _, _ => err "format"
+  | "push" :: cut :: rest =>
+    -- push cut r dx dy dz  ->  radicand, d[cut]
+    match Cut.ofString? cut, parseRats? rest with
+    | some c, some [r, dx, dy, dz] =>
+      showRats [pushRadicand c r ⟨dx, dy, dz⟩, (⟨dx, dy, dz⟩ : V3 Rat).get (cutIndex c)]
+    | _, _ => err "format"
+  | _ => err "op"
 
 def main : IO Unit := runDriver handleC14
